@@ -397,6 +397,10 @@ pub fn cases(tier: Tier) -> Vec<Case08> {
 pub struct CaseDb {
     pub class: String,
     pub prop: String,
+    /// an instance of this *other* class, whose default for the same inherited property is a
+    /// different one, carries the property in the same file
+    #[serde(default)]
+    pub neighbour: Option<String>,
 }
 
 pub fn db_cases() -> Vec<CaseDb> {
@@ -419,7 +423,22 @@ pub fn db_cases() -> Vec<CaseDb> {
             }
             if let Lookup::Known(k) = specdb::lookup(c, &p) {
                 if matches!(k.ser, Ser::Serializes | Ser::As { .. }) && k.canonical == p {
-                    out.push(CaseDb { class: c.clone(), prop: p });
+                    out.push(CaseDb { class: c.clone(), prop: p.clone(), neighbour: None });
+                    // classes that share the property (same declaring ancestor) but not its default
+                    if let Some(mine) = specdb::default_value(c, &p) {
+                        let others: Vec<&String> = classes
+                            .iter()
+                            .filter(|y| *y != c)
+                            .filter(|y| matches!(specdb::lookup(y, &p), Lookup::Known(k2) if k2.canonical == p))
+                            .filter(|y| specdb::default_value(y, &p).map(|d| r(d) != r(mine)).unwrap_or(false))
+                            .collect();
+                        if let Some(first) = others.first() {
+                            out.push(CaseDb { class: c.clone(), prop: p.clone(), neighbour: Some((*first).clone()) });
+                        }
+                        if others.len() > 1 {
+                            out.push(CaseDb { class: c.clone(), prop: p.clone(), neighbour: Some((*others.last().unwrap()).clone()) });
+                        }
+                    }
                 }
             }
         }
@@ -444,10 +463,21 @@ pub fn judge_db(c: &CaseDb) -> Vec<(String, String)> {
         Some(x) => x,
         None => return out,
     };
-    for order in 0..2 {
+    for order in 0..(if c.neighbour.is_some() { 3 } else { 2 }) {
         let a = InstanceBuilder::new(class).with_name("has").with_property(c.prop.as_str(), other.clone());
         let b = InstanceBuilder::new(class).with_name("lacks");
-        let root = if order == 0 { InstanceBuilder::new("DataModel").with_child(a).with_child(b) } else { InstanceBuilder::new("DataModel").with_child(b).with_child(a) };
+        let root = match (&c.neighbour, order) {
+            (None, 0) => InstanceBuilder::new("DataModel").with_child(a).with_child(b),
+            (None, _) => InstanceBuilder::new("DataModel").with_child(b).with_child(a),
+            (Some(y), k) => {
+                let n = InstanceBuilder::new(y.as_str()).with_name("neighbour").with_property(c.prop.as_str(), other.clone());
+                match k {
+                    0 => InstanceBuilder::new("DataModel").with_child(n).with_child(a).with_child(b),
+                    1 => InstanceBuilder::new("DataModel").with_child(b).with_child(a).with_child(n),
+                    _ => InstanceBuilder::new("DataModel").with_child(n).with_child(b).with_child(a),
+                }
+            }
+        };
         let dom = WeakDom::new(root);
         let bytes = match serialize(&dom) {
             Ok(Ok(b)) => b,
@@ -469,7 +499,7 @@ pub fn judge_db(c: &CaseDb) -> Vec<(String, String)> {
         match lacks.and_then(|i| i.properties.get(&want.0.as_str().into())) {
             Some(g) if r(g) == r(&want.1) => {}
             other_got => out.push((
-                format!("c08|db-default|{}", if other_got.is_none() { "missing" } else { "value" }),
+                format!("c08|db-default|{}{}", if other_got.is_none() { "missing" } else { "value" }, if c.neighbour.is_some() { "|with-neighbour-class" } else { "" }),
                 format!("[{}{{{}={}}}, {}{{}}] (order {}): the instance that lacks {} should read back with the class default {} but shows {:?}", class, c.prop, r(&other).chars().take(60).collect::<String>(), class, order, c.prop, r(&want.1).chars().take(80).collect::<String>(), other_got.map(|g| r(g).chars().take(80).collect::<String>())),
             )),
         }
